@@ -41,13 +41,14 @@ def elements():
         w = ELEMENT_WIDTHS[E.__name__]
         defined = {m.value for m in E}
         for v in range(1 << w):
-            r = {"enum": E.__name__, "w": w, "v": v, "defined": v in defined, "result": -1, "wbits": w, "back": -1}
+            r = {"enum": E.__name__, "w": w, "v": v, "defined": v in defined, "result": -1, "rname": "", "wbits": w, "back": -1}
             try:
                 m = E.from_bits(int2ba(v, length=w)) if hasattr(E, "from_bits") else E(v)
                 if m is None:
                     r["result"] = -2
                 else:
                     r["result"] = int(m.value)
+                    r["rname"] = m.name
                     if hasattr(m, "as_bits"):
                         b = m.as_bits()
                         r["wbits"] = len(b)
@@ -77,7 +78,7 @@ def run(ctx):
     ctx.assumptions += [
         "only fields the opcode's layout carries are compared; enumeration-typed fields take defined members; GPS coordinates are drawn from the decoder's grid (raw two's complement value x step)",
         "for arbitrary bits the obligation is a documented error (ValueError, KeyError, NotImplementedError, AssertionError) or a fixed point of decode-then-encode",
-        "an undefined element value may map to any member or raise; it must not map to nothing (which member is the fallback is not judged)",
+        "an undefined element value may raise or map to a member, never to nothing; where the standard assigns undefined values to reserved / manufacturer-specific ranges (spec/Elements.tla, ten elements) the member must be the one of that range; the feature set id is exempt (unlisted manufacturer ids are folded onto the first listed manufacturer, asserted by the repository's tests)",
         "absolute bit offsets against the spec layouts are reported as model drift, the statement promises a round trip",
     ]
     core.setup_repo_path()
